@@ -51,7 +51,9 @@ ITER1 = lambda y, b='typing.Iterator': {'base': b, 'args': [y], 'quoted': False}
 def ann_src(a):
     # 'fwd': the slot type str is spelled as a FORWARD REFERENCE to a name of the defining module (its prelude binds MyStr = str):
     # same conformance table, but the value checks of the wrapper need that module's names to resolve it
-    b, args = a['base'], [("'MyStr'" if a.get('fwd') and t == 'str' else TY_SRC[t]) for t in a['args']]
+    # 'pep585': the parametrised slot types in their builtin / PEP 604 spelling (list[int], int | None): same conformance table
+    alt = {'listInt': 'list[int]', 'optInt': 'int | None'} if a.get('pep585') else {}
+    b, args = a['base'], [("'MyStr'" if a.get('fwd') and t == 'str' else alt.get(t, TY_SRC[t])) for t in a['args']]
     special = {'int': 'int', 'str': 'str', 'none': 'None', 'object': 'object', 'typing.Any': 'Any',
                'typing.Optional': 'Optional[Generator[int, None, None]]', 'typing.Union': 'Union[Iterator[int], int]'}
     if b in special:
@@ -64,7 +66,7 @@ def ann_src(a):
 
 
 def ann_key(a):
-    return (a['base'], tuple(a['args']), bool(a['quoted']), bool(a.get('fwd')))
+    return (a['base'], tuple(a['args']), bool(a['quoted']), bool(a.get('fwd')), bool(a.get('pep585')))
 
 
 BODY = '''    J = _S['J']
@@ -506,6 +508,8 @@ def ann_pool(r, n):
             pool.append(GEN3(r.choice(TYS), r.choice(TYS + ['none', 'int']), r.choice(TYS + ['none', 'none'])))
         else:
             pool.append(ITER1(r.choice(TYS), r.choice(['typing.Iterator', 'typing.Iterable'])))
+        if r.random() < 0.3 and any(t in ('listInt', 'optInt') for t in pool[-1]['args']):
+            pool[-1] = dict(pool[-1], pep585=True)
     return pool
 
 
@@ -597,6 +601,15 @@ def gen_cases(rng, tier):
                 for ops in [[('next',), ('next',)], [('next',), ('send', ['str', 4]), ('next',)], [('next',), ('send', ['int', 3]), ('next',)],
                             [('next',), ('throw', 7), ('next',)], [('next',), ('next',), ('next',)]]:
                     out.append(mk(ann, sc, ops, kind, 'fwd'))
+    # 2c. parametrised slot types in the builtin spelling; several values of ONE class in a row, a later one non-conforming
+    LI, LS, LI2 = ['listInt', 3], ['listStr', 5], ['listInt', 7]
+    for ann in (dict(ITER1('listInt'), pep585=True), dict(GEN3('listInt', 'none', 'listInt'), pep585=True), dict(GEN3('optInt', 'optInt', 'optInt'), pep585=True),
+                ITER1('listInt'), GEN3('listInt', 'none', 'listInt')):
+        for kind in KINDS:
+            for sc in [[('yield', LI, 0), ('yield', LS, 0)], [('yield', LI, 0), ('yield', LI2, 0), ('yield', LS, 0)], [('yield', LI, 1), ('yield', LS, 0)],
+                       [('yield', LI, 0), ('return', LS)], [('yield', LS, 0), ('yield', LI, 0)], [('yield', I, 0), ('yield', S, 0), ('return', I)]]:
+                for ops in [[('next',), ('next',), ('next',)], [('next',), ('throw', 7), ('next',)], [('next',), ('send', N), ('next',), ('next',)]]:
+                    out.append(mk(ann, sc, ops, kind, 'sameclass'))
     # 3. seeded random longer interactions
     pool = ann_pool(rng, 50 if quick else 400)
     for _ in range(6000 if quick else 60000):
